@@ -34,14 +34,17 @@ func NormalizeTree(
 	convergenceOccurred := false
 	for _, url := range urls {
 		update, err := tree.InsertWithConvergenceIndication(url, &EmptyStruct{})
+		if !convergenceOccurred && update {
+			convergenceOccurred = update
+		}
 		if err != nil {
+			// A URL the tree refuses (empty segment, misplaced wildcard, clashing
+			// path parameter name) must not make the caller drop the whole batch:
+			// skip it here; NormalizeURL falls back to the URL as it is.
 			log.Error().
 				Err(err).
 				Msgf("Error updating tree with URL: %v", url)
-			return false, err
-		}
-		if !convergenceOccurred && update {
-			convergenceOccurred = update
+			continue
 		}
 	}
 
